@@ -30,6 +30,23 @@ let init_handler a o =
      | _ -> "?")
   | _ -> "?"
 
+(* NewServer(cfg).ID(): same relation, the deterministic flag is not observable *)
+let server_handler a o =
+  match a with
+  | [nodeid; hasconn; nw; addr; pubip; nosec] ->
+    let cfg = cfg_of_args nodeid hasconn nw addr pubip nosec in
+    (match o with
+     | ["panic"] -> if init_panics cfg then "panic" else "REJECT model does not panic"
+     | [id] ->
+       let obs = bytes_of_hex id in
+       if accept_init_node_id cfg obs true || accept_init_node_id cfg obs false then id
+       else
+         (match init_node_id cfg obs with
+          | None -> "REJECT model panics"
+          | Some (m, _) -> "REJECT not-a-possible-output model(rnd=obs)=" ^ hex_of_bytes m)
+     | _ -> "?")
+  | _ -> "?"
+
 let () =
   reg "sha1" (fun a _ -> match a with [m] -> hex_of_bytes (sha1 (bytes_of_hex m)) | _ -> "?");
   reg "crc32c" (fun a _ -> match a with [m] -> dec_of_n (crc32c (bytes_of_hex m)) | _ -> "?");
@@ -54,4 +71,4 @@ let () =
     | [s; ip] -> opt_bytes (make_deterministic_node_id (bytes_of_hex s) (bytes_of_hex ip))
     | _ -> "?");
   reg "initid" init_handler;
-  reg "serverid" init_handler
+  reg "serverid" server_handler
